@@ -75,6 +75,8 @@ def _strip_decorators(node):
 # ---------------------------------------------------------------------- builtins
 def builtin(it, name):
     def b_len(x):
+        if hasattr(x, "abs_len"):
+            return x.abs_len()
         if isinstance(x, GA):
             return NRows(x.data.n, x.data.pop) if x.data.n else 0
         if isinstance(x, DF):
@@ -225,7 +227,7 @@ def builtin(it, name):
         "isinstance": b_isinstance, "hasattr": b_hasattr, "getattr": b_getattr,
         "enumerate": lambda x, start=0: list(enumerate(it.iterate(x), start)),
         "zip": lambda *a: list(zip(*[list(it.iterate(x)) for x in a])),
-        "range": range, "iter": lambda x: iter(it.iterate(x)),
+        "range": range, "slice": slice, "iter": lambda x: iter(it.iterate(x)),
         "filter": lambda f, xs: [x for x in it.iterate(xs) if (_ai().truth(x) if f is None else _ai().truth(it.call(f, [x], {})))],
         "map": lambda f, *xs: [it.call(f, list(a), {}) for a in zip(*[list(it.iterate(x)) for x in xs])],
         "any": lambda xs: any(_ai().truth(x) for x in it.iterate(xs)),
